@@ -6,7 +6,7 @@ META = {
         "state": "inductive step: edit text of length L <= 2 over all Unicode scalar values (newline, space, wide, zero-width arise as solver choices), "
                  "cursor offset anywhere in [0, L] (enumerated), caption from {'', 'ab'}; str and (ASCII/UTF-8 2-byte) bytes text",
         "keys": "one key per step: a printable character (symbolic code point), left, right, home, end, up, down, backspace, delete, enter, tab, an unused key, a click at a symbolic cell",
-        "width": "symbolic and unbounded for the text-model obligations; concretised 1..3 (quick) / 1..4 (thorough) where a canvas / layout rows are materialised",
+        "width": "symbolic and unbounded for the text-model obligations; concretised 1..3 where a canvas / layout rows are materialised",
     },
     "outside": ["texts longer than 2 (L = 3 did not finish within the thorough budget)", "highlight", "custom layouts", "masks", "right/center alignment of the edit line for the cursor-cell obligation"],
     "stubs": ["str_util.get_char_width -> uninterpreted W", "CanvasCache disabled"],
@@ -24,16 +24,16 @@ def instances(tier):
             for cfg in (("space", False, False, ""), ("any", True, True, "ab"), ("clip", True, False, "")):
                 wrap, multiline, allow_tab, caption = cfg
                 layout_key = key in ("home", "end", "up", "down", "click")
-                if q and L == 2 and layout_key and not (cfg[0] == "space" and key in ("up", "end")):
-                    continue  # (the L = 2 layout-dependent steps take minutes each: thorough tier)
+                if L == 2 and layout_key and not (cfg[0] == "space" and (key in ("up", "end") or not q)):
+                    continue  # (the L = 2 layout-dependent steps take minutes each: two of them in the quick tier, the 'space' ones in thorough)
                 if q and L == 1 and key == "click" and cfg[0] != "any":
                     continue
                 out.append(Instance("edit.%s.%s.L%d.%s" % (wrap, "cap" if caption else "nocap", L, key), "h_edit",
-                                    {"L": L, "key": key, "wrap": wrap, "multiline": multiline, "allow_tab": allow_tab, "caption": caption, "maxw": 3 if q else 4}, timeout=600 if q else 2400))
+                                    {"L": L, "key": key, "wrap": wrap, "multiline": multiline, "allow_tab": allow_tab, "caption": caption, "maxw": 3}, timeout=600 if q else 1500))
                 # the same step from a state that remembers a preferred column (after an earlier vertical move)
-                if key in ("char", "backspace", "delete", "left", "right", "up", "down", "enter") and (not q or (L == 1 and cfg[0] != "clip")):
+                if key in ("char", "backspace", "delete", "left", "right", "up", "down", "enter") and ((L == 1 and cfg[0] != "clip") or (not q and L <= 1)):
                     out.append(Instance("edit.%s.%s.L%d.%s.pref" % (wrap, "cap" if caption else "nocap", L, key), "h_edit",
-                                        {"L": L, "key": key, "wrap": wrap, "multiline": multiline, "allow_tab": allow_tab, "caption": caption, "maxw": 3 if q else 4, "pref": True}, timeout=600 if q else 2400))
+                                        {"L": L, "key": key, "wrap": wrap, "multiline": multiline, "allow_tab": allow_tab, "caption": caption, "maxw": 3, "pref": True}, timeout=600 if q else 1500))
     for L in (0, 1, 2):
         for key in ("char", "backspace", "delete", "left"):
             out.append(Instance("bytes.L%d.%s" % (L, key), "h_edit_bytes", {"L": L, "key": key}, timeout=600))
